@@ -88,7 +88,7 @@ CHECKS = {
         "design_ref": 'DESIGN.md §3 Proxy.tla',
     },
     "C03": {
-        "text": "Authz.tla's RootOnly/NoSelfProxy hold over its whole domain (TLC); the shared proxy pipeline replays every scenario with non-elevated callers to WireServer/HostGAPlugin under every rule mode and decision and with the proxy's own address as recorded destination; TLC validates P_C03_RootOnly / P_C03_NoSelfProxy on every observed request (not relayed, zero upstream bytes, 403).",
+        "text": "Authz.tla's RootOnly/NoSelfProxy hold over its whole domain (TLC); the shared proxy pipeline replays every scenario with non-elevated callers to WireServer/HostGAPlugin under every rule mode and decision and with the proxy's own address as recorded destination; TLC validates P_C03_RootOnly / P_C03_NoSelfProxy on every observed request (not relayed, zero upstream bytes, 403). Further: callers the kernel recorded as not elevated whose accounts are members of root / sudo / wheel / adm / Administrators (private /etc/group of the run) must be refused by both root-only endpoints while the elevated control is served; RootOnlyTrace.tla decides.",
         "note": 'Kernel audit map replaced by the cfg-guarded stand-in (hooks H1/H2); mock hosts in a private netns; one request per connection in this pipeline (keep-alive/reuse/concurrency: C07, C14); identity space = OS users root/daemon/bin/nobody and the harness process; rule documents are generated realisations of allow/deny, decided independently by Rbac.tla.',
         "technique": "TLA+ spec (Proxy.tla/Authz.tla/Rbac.tla) + TLC model checking; TLC-generated scenarios replayed on the real ProxyServer; impl->spec trace validation of every observed request",
         "design_ref": 'DESIGN.md §3 Proxy.tla',
